@@ -70,9 +70,14 @@ def run_e1(task, prop):
                     prop.check_job(w, rec)
                 prop.check_op(w, op, recs or [])
         else:
+            # final() records the ops it applies in w.final_sink *before*
+            # applying them, so that a violation raised from there still
+            # leaves a complete, replayable op list
+            w.final_sink = executed
             fin = prop.final(w, rng, replay=replay)
             if fin:
-                executed.extend(fin)
+                executed.extend(o for o in fin
+                                if not any(o is e for e in executed))
     except Violation as v:
         violations.append(v.as_dict())
     res = {
